@@ -180,8 +180,12 @@ func verifC09(method string, requester *net.UDPAddr, symbolicIDs bool) {
 		}
 		if symbolicIDs {
 			contacts[i].addr = verifContactAddr(i, verifNondetBool())
-		} else if verifNondetBool() {
+		} else if f := verifChoice(0, 2); f == 0 {
 			contacts[i].addr = &net.UDPAddr{IP: net.IP{198, 51, 100, byte(10 + i)}, Port: 2000 + i}
+		} else if f == 1 {
+			// an IPv4 contact held in the 16-byte form (what a dual-stack socket, net.IPv4 and
+			// net.ParseIP report)
+			contacts[i].addr = &net.UDPAddr{IP: net.IPv4(198, 51, 100, byte(10+i)), Port: 2000 + i}
 		} else {
 			ip := net.ParseIP("2001:db8::100")
 			ip[15] = byte(i)
